@@ -170,7 +170,34 @@ def linearise(rng, cls, kind, slot, n, es, vals, detours=True):
     return ops
 
 
+def all_pairs_small(tier, rng):
+    """every ordered pair of graphs on n <= 2 vertices (all classes, one value per edge), plus
+    sampled pairs on 3 vertices with equal edge counts (the case operator=='s counters cannot decide)"""
+    for cls in ALL_CLASSES:
+        kind = "none" if cls in SIMPLE else "-"
+        und = cls in ("und", "umulti", "uw")
+        for n in (1, 2, 3):
+            pairs = [(i, j) for i in range(n) for j in range(n) if (not und or i <= j)]
+            graphs = []
+            for mask in range(1 << len(pairs)):
+                graphs.append([p for b, p in enumerate(pairs) if mask >> b & 1])
+            if n <= 2:
+                todo = [(x, y) for x in graphs for y in graphs]
+            else:
+                todo = []
+                for _ in range(scale(tier, 300, 6000)):
+                    x = rng.choice(graphs)
+                    same = [y for y in graphs if len(y) == len(x)]
+                    todo.append((x, rng.choice(same)))
+            for (x, y) in todo:
+                ops = [gen.new_line(0, cls, kind, n)] + [add_op(cls, 0, i, j, 1) for (i, j) in x]
+                ops += [gen.new_line(1, cls, kind, n)] + [add_op(cls, 1, i, j, 1) for (i, j) in y]
+                ops += ["eq 0 1", "eq 1 0"]
+                yield ({"cls": cls, "kind": kind, "n": n, "len": len(ops), "exh": n <= 2}, ops)
+
+
 def wl_C06(tier, rng):
+    yield from all_pairs_small(tier, rng)
     for _ in range(scale(tier, 1500, 30000)):
         cls = rng.choice(ALL_CLASSES)
         kind = rng.choice(KINDS_ALL) if cls in SIMPLE else "-"
@@ -179,7 +206,7 @@ def wl_C06(tier, rng):
         ops += ["eq 0 1", "eq 1 0", "eq 0 0"]
         # a variant differing in exactly one edge / label / size
         ops.append("copy 1 2")
-        mode = rng.choice(["edge+", "edge-", "label", "size", "clear"])
+        mode = rng.choice(["edge+", "edge-", "label", "size", "clear", "move", "move", "move"])
         und = cls in ("und", "umulti", "uw")
         if mode == "edge+" and n > 0:
             a, b = gen.pick_pair(rng, n)
@@ -197,6 +224,19 @@ def wl_C06(tier, rng):
                 ops.append(f"setEdgeMultiplicity 2 {a} {b} {rng.randint(1, 5)}")
             elif cls in WEIGHTED:
                 ops.append(f"setEdgeWeight 2 {a} {b} {rng.randint(-8, 16)}")
+        elif mode == "move" and es and n > 0:
+            # same size, same edge count, one edge moved elsewhere (biased to the last vertex)
+            a, b = rng.choice(es) if rng.random() < .5 else max(es)
+            if cls in MULTI:
+                ops.append(f"setEdgeMultiplicity 2 {a} {b} 0")
+            else:
+                ops.append(f"removeEdge 2 {a} {b}")
+            for _ in range(8):
+                c, d = (n - 1, rng.randrange(n)) if rng.random() < .5 else gen.pick_pair(rng, n)
+                key = (min(c, d), max(c, d)) if und else (c, d)
+                if key not in {((min(x, y), max(x, y)) if und else (x, y)) for (x, y) in es}:
+                    ops.append(add_op(cls, 2, c, d, vals[(a, b)]))
+                    break
         elif mode == "size":
             ops.append(f"resize 2 {n + 1}")
         elif mode == "clear":
